@@ -113,6 +113,133 @@ theorem C18_clean_stream (input : Bytes) (plan : List Nat) :
 
 end clean
 
+/-! ## qmail-lspawn / qmail-rspawn (spawn.c) -/
+section spawn
+open Nq.Spawn Nq.Lemmas.SpawnL Nq.Gen.SpawnTexts
+
+/-- **The only path opened is the message id of the command, and it is a well-formed queue file
+name**: non-empty, at most 99 bytes, decimal digits and `/` only, not starting with `/` (so never
+absolute, never containing `.`).  `m` is the message id as `getcmd` collected it (NUL-free, NUL
+appended). -/
+theorem C18_spawn_open (st : St) (m : Bytes) (hm : st.messid = m ++ [0]) (h0 : ∀ c ∈ m, c ≠ 0) :
+    ∀ p, Ev.openRead p ∈ (docmd st).2 → p = m ∧ okPath p = true := by
+  intro p hp
+  have hdl : st.messid.dropLast = m := by rw [hm, List.dropLast_concat]
+  rcases docmd_cases st with ⟨t, _, h⟩ | ⟨hc, j, _, h⟩
+  · rw [h] at hp; simp at hp
+  · have hok : okPath m = true := by
+      obtain ⟨_, _, c3, c4, c5⟩ := hc
+      rw [hm] at c3 c4 c5
+      exact okPath_of_checks m h0 c3 c4 c5
+    have : p = m := by
+      rcases h with ⟨t, h, _⟩ | ⟨_, h⟩ | ⟨_, h⟩ <;> rw [h] at hp <;> simp [hdl] at hp <;> exact hp
+    exact ⟨this, this ▸ hok⟩
+
+/-- **A message file that is not a regular file owned by the queue user is never handed to a
+child**: no `spawn()`, the slot table is unchanged, and the command is answered with one temporary
+(`Z`) report carrying its delivery number. -/
+theorem C18_spawn_guard (st : St)
+    (h : st.plan.headD 0 = 3 ∨ st.plan.headD 0 = 4 ∨ st.plan.headD 0 = 7 ∨ st.plan.headD 0 = 8) :
+    (docmd st).1.slots = st.slots ∧
+    (∀ s a b c, Ev.spawnCall s a b c ∉ (docmd st).2) ∧
+    (∀ p, Ev.openRead p ∈ (docmd st).2 →
+      ∃ t, (docmd st).2 = [.openRead p, .report st.delnum t] ∧ t.head? = some 90) := by
+  rcases docmd_cases st with ⟨t, _, h1⟩ | ⟨_, j, _, h1⟩
+  · rw [h1]; exact ⟨rfl, by simp, by simp⟩
+  · rcases h1 with ⟨t, h1, ht⟩ | ⟨h6, _⟩ | ⟨h0, _⟩
+    · rw [h1]
+      refine ⟨rfl, by simp, ?_⟩
+      intro p hp
+      have hp' : p = st.messid.dropLast := by simpa using hp
+      refine ⟨t, by rw [hp'], ?_⟩
+      rcases ht with ⟨a, _⟩ | ⟨a, _⟩ | ⟨_, b⟩ | ⟨_, b⟩ | ⟨a, _⟩
+      · omega
+      · omega
+      · rw [b]; exact guard_texts_Z.1
+      · rw [b]; exact guard_texts_Z.2
+      · omega
+    · omega
+    · omega
+
+/-- **Exactly one answer per command, now or later**: `docmd` either writes exactly one report
+(carrying the command's delivery number, a fixed text starting with K/Z/D and free of NUL) and
+leaves the slots alone, or starts exactly one child in the command's slot and writes nothing;
+in both cases  reports written + children running  grows by exactly one. -/
+theorem C18_spawn_one_cmd (st : St) (hl : st.slots.length = Nq.Gen.auto_spawn) :
+    nReports (docmd st).2 + usedCount (docmd st).1 = usedCount st + 1 ∧
+    (∀ d b, Ev.report d b ∈ (docmd st).2 → d = st.delnum ∧ textOK b = true) ∧
+    (docmd st).1.slots.length = st.slots.length :=
+  docmd_balance st hl
+
+/-- **One report per exited child**: when the child of a slot in use exits, exactly one report is
+written, it carries the slot number, and the slot is freed:  reports written + children running
+is unchanged. -/
+theorem C18_spawn_one_exit (k : Kind) (st : St) (slot wstat : Nat) (out : Bytes)
+    (h : st.slots.getD slot none = some out) :
+    childExit k st slot wstat =
+      ({ st with slots := st.slots.set slot none }, [.report slot (reportBody k wstat out)]) ∧
+    usedCount { st with slots := st.slots.set slot none } + 1 = usedCount st := by
+  unfold childExit
+  simp only [h]
+  exact ⟨trivial, usedCount_set_none st.slots slot out h⟩
+
+/-- a child writing output never changes which slots are in use, and output for a slot without a
+child is dropped -/
+theorem C18_spawn_out (k : Kind) (st : St) (slot : Nat) (bytes : Bytes) :
+    usedCount (ostep k st (.out slot bytes)).1 = usedCount st ∧ (ostep k st (.out slot bytes)).2 = [] := by
+  cases h : st.slots.getD slot none with
+  | none => simp only [ostep, h, and_self]
+  | some out =>
+    simp only [ostep, h, and_true]
+    exact usedCount_set_same st.slots slot out _ h
+
+end spawn
+
+/-! ## qmail-send report reader (del_dochan) -/
+section send
+open Nq.SendReport Nq.Lemmas.SendL
+
+/-- **Oversized reports are truncated**: whatever bytes arrive, the report line never holds more
+than REPORTMAX bytes. -/
+theorem C18_send_bound (env : Env) (st : St) (s : Bytes) (h : st.dlen ≤ Nq.Gen.REPORTMAX) :
+    (feed env st s).1.dlen ≤ Nq.Gen.REPORTMAX := feed_dlen env st s h
+
+/-- **Out-of-range and unused delivery numbers change nothing**: a report whose first byte names
+a slot beyond `concurrency[c]` or a slot not in use only produces the warning line; slots, jobs,
+recipient files and bounce files are untouched. -/
+theorem C18_send_ignored (env : Env) (st : St) (dl : Bytes)
+    (h : st.slots.getD (dl.headD 0).toNat none = none) :
+    processLine env st dl = (st, [.log WARN]) := processLine_unused env st dl h
+
+/-- **A report for a delivery in flight changes at most that delivery's record, once**: the slot
+is freed (so a second report for it falls under `C18_send_ignored`), no other slot changes, the
+line buffer is untouched; at most one recipient record is marked — the one at the slot's own
+`mpos` in the slot's own message — by writing the single byte `D`; at most one bounce is
+appended, to that message's bounce file; and a report with an unknown status letter (malformed)
+marks nothing and bounces nothing. -/
+theorem C18_send_flip (env : Env) (st : St) (dl : Bytes) (sl : Slot)
+    (h : st.slots.getD (dl.headD 0).toNat none = some sl) :
+    (processLine env st dl).1.slots = st.slots.set (dl.headD 0).toNat none ∧
+    (marksOf (processLine env st dl).2 = [] ∨
+     marksOf (processLine env st dl).2 =
+       [(Clean.fmtqfn (chanaddr env.chan) (st.jobs.getD sl.j ⟨0, 0, 0, false, false, 0, 0⟩).id true, sl.mpos)]) ∧
+    (bouncesOf (processLine env st dl).2 = [] ∨
+     bouncesOf (processLine env st dl).2 =
+       [Clean.fmtqfn (str "bounce/") (st.jobs.getD sl.j ⟨0, 0, 0, false, false, 0, 0⟩).id false]) ∧
+    writesOK (processLine env st dl).2 = true ∧
+    ((dl.getD 1 0 ≠ 75 ∧ dl.getD 1 0 ≠ 90 ∧ dl.getD 1 0 ≠ 68) →
+      marksOf (processLine env st dl).2 = [] ∧ bouncesOf (processLine env st dl).2 = []) := by
+  obtain ⟨_, _, h3, h4, h5, h6, h7⟩ := processLine_used env st dl sl h
+  exact ⟨h3, h4, h5, h6, h7⟩
+
+/- Full statement not proved (kept as the oracle `sendOK` / `refMarks` run on the real code):
+   for every stream `s`, `marksOf (feed env st s).2` is a sub-multiset of the deliveries in flight in
+   `st` and equals the marks the reference reader `refMarks` expects.  `C18_send_flip` and
+   `C18_send_ignored` are its per-report step; the missing part is the multiset bookkeeping over
+   the whole stream. -/
+
+end send
+
 /-! ### Non-vacuity for qmail-clean (bytes written out: "foop/12\0", "todo/7\0", …) -/
 section examples
 open Nq.Clean
@@ -131,6 +258,15 @@ example : (handleReq [102, 111, 111, 112, 47, 49, 56, 52, 52, 54, 55, 52, 52, 48
 example : (handleReq [116, 111, 100, 111, 47, 55, 0] [2]).1 =
     [.unlink [105, 110, 116, 100, 47, 55], .status 33] := by decide
 example : allowed [116, 111, 100, 111, 47, 55, 0] = [[105, 110, 116, 100, 47, 55], [116, 111, 100, 111, 47, 55]] := by decide
+
+/-- spawn: delivery 3, message id "1/24", sender "s", recipient "r@h", file regular and owned: opened and spawned -/
+example : (Nq.Spawn.cfeed {} [3, 49, 47, 50, 52, 0, 115, 0, 114, 64, 104, 0]).2 =
+    [.openRead [49, 47, 50, 52], .spawnCall 3 [115] [114, 64, 104] 1] := by decide
+/-- the same with message id "/1" (absolute path): refused before any open -/
+example : ((Nq.Spawn.cfeed {} [3, 47, 49, 0, 115, 0, 114, 64, 104, 0]).2.any
+    (fun e => match e with | .openRead _ => true | _ => false)) = false := by decide
+/-- okPath accepts "1/24", rejects "/1", "1/.", "" -/
+example : okPath [49, 47, 50, 52] = true ∧ okPath [47, 49] = false ∧ okPath [49, 47, 46] = false ∧ okPath [] = false := by decide
 
 end examples
 
